@@ -259,19 +259,60 @@ def check(args):
         if any(h.needs_tables for h in sel):
             info["tables"] = ov_mod.dump_tables(ov, src_hash)
             log("tables: %s" % info["tables"])
-        target_dir = ov_mod.seed_kani_target(scratch)
-        out_json = os.path.join(scratch, "kani.json")
-        logfile = os.path.join(scratch, "kani.log")
+        # ---- shard the harness set: one `cargo kani` process per shard, each with its own target
+        # dir (hard-link copy of the dependency cache).  Kani generates one goto binary per
+        # harness sequentially inside one rustc run, so sharding parallelises code generation too.
         log("%s/%s: %d harness(es): %s" % (prop, tier, len(sel), " ".join(h.name for h in sel)))
-        rc, wall, cmd = run_kani(ov, target_dir, sel, tier_cfg, out_json, logfile, jobs=args.jobs)
-        info["kani_cmd"] = cmd
-        info["kani_wall_s"] = round(wall, 1)
-        logtxt = open(logfile, errors="replace").read()
-        data = parse_export(out_json)
-        if data is None:
-            # compile error or crash before verification
-            tail = "\n".join(l for l in logtxt.splitlines() if not l.startswith("warning"))[-5000:]
-            raise InfraError("cargo kani produced no results (rc=%s):\n%s" % (rc, tail))
+        total_jobs = args.jobs or 16
+        shard_size = int(os.environ.get("VERIF_SHARD_SIZE", "2"))
+        shards = [sel[i:i + shard_size] for i in range(0, len(sel), shard_size)]
+        par_shards = max(1, min(len(shards), total_jobs // min(shard_size, max(1, len(sel)))))
+        import threading
+        lock = threading.Lock()
+        merged = {"results": [], "cbmc": [], "property_details": [], "error_details": []}
+        cmds = []
+        fails = []
+        queue = list(enumerate(shards))
+
+        def worker():
+            while True:
+                with lock:
+                    if not queue:
+                        return
+                    k, sh_hs = queue.pop(0)
+                tdir = ov_mod.seed_kani_target(scratch, "kani-target-%d" % k)
+                oj = os.path.join(scratch, "kani-%d.json" % k)
+                lf = os.path.join(scratch, "kani-%d.log" % k)
+                rc, wall, cmd = run_kani(ov, tdir, sh_hs, tier_cfg, oj, lf, jobs=len(sh_hs))
+                data = parse_export(oj)
+                with lock:
+                    cmds.append(cmd)
+                    if data is None:
+                        logtxt = open(lf, errors="replace").read()
+                        tail = "\n".join(l for l in logtxt.splitlines() if not l.startswith("warning"))[-5000:]
+                        fails.append("shard %d: cargo kani produced no results (rc=%s):\n%s" % (k, rc, tail))
+                    else:
+                        merged["results"] += data["verification_results"]["results"]
+                        merged["cbmc"] += data.get("cbmc", [])
+                        merged["property_details"] += data.get("property_details", [])
+                        merged["error_details"] += data.get("error_details", [])
+
+        t_k = time.time()
+        threads = [threading.Thread(target=worker) for _ in range(par_shards)]
+        for t in threads:
+            t.start()
+        for t in threads:
+            t.join()
+        info["kani_cmd"] = cmds[0] if cmds else ""
+        info["kani_shards"] = len(shards)
+        info["kani_wall_s"] = round(time.time() - t_k, 1)
+        if fails and not merged["results"]:
+            raise InfraError(fails[0])
+        for f in fails:
+            verdict.inconclusive.append(f[:3000])
+        target_dir = ov_mod.seed_kani_target(scratch, "kani-target-0")
+        data = {"verification_results": {"results": merged["results"]}, "cbmc": merged["cbmc"],
+                "property_details": merged["property_details"], "error_details": merged["error_details"]}
         by_id = {r["harness_id"]: r for r in data["verification_results"]["results"]}
         stats = {c["harness_id"]: c.get("cbmc_stats", {}) for c in data.get("cbmc", [])}
         pdet = {c["harness_id"]: c.get("property_details", {}) for c in data.get("property_details", [])}
